@@ -61,6 +61,7 @@ func (r *Report) add(o Ob) {
 		o.Weight = 1
 	}
 	o.St = o.Status.String()
+	o.Key = strings.ReplaceAll(o.Key, " ", "_")
 	k := o.Rule + "|" + o.Key
 	if r.seenKey[k] {
 		// keys must be unique per rule: disambiguate deterministically
